@@ -250,6 +250,10 @@ func (a *Act) dynamicCall(st *State, c *ssa.CallCommon, args []Term, pos token.P
 		}
 	}
 	tr.havocked["dynamic:"+typeStr(sig)] = true
+	if tr.prop == "C20" {
+		// a Go function reached through a function value the binder knows nothing about may panic
+		a.mayPanic(st, "dyncall", pos, tr.freshConst("nopanic_dyn", "Bool"), tr.freshConst("panicval", "Val"))
+	}
 	return a.havocCall(st, sig, args, true, pos, "dyn")
 }
 
